@@ -195,6 +195,15 @@ class CookieProber:
                                ('other_addr', build_init(conn_r, spi, nonce, x), r_addr)):
             if rejected(tag, data, src, must_differ=c1) is None:
                 return
+        # the source address of an IKE_SA_INIT request proves nothing: a request that claims the address of a peer the responder has an
+        # established IKE_SA with is challenged like any other
+        a_addr = meta['a_addr']
+        conn_a = conf.get((ipaddress.ip_address(dst), ipaddress.ip_address(a_addr)))
+        if conn_a is not None and not w.scenario.get('rotate_secret'):     # (the rotate batch renews the secret at the first COOKIE sent towards A)
+            if any(str(sa.peer_addr) == a_addr and 10 <= int(sa.state) < 20 for sa in node.ike_sas()):
+                self._r('probe_from_address_of_established_peer')
+            if rejected('known_peer_addr', build_init(conn_a, rb(8), rb(32), x), a_addr) is None:
+                return
         bad = bytearray(c1)
         bad[rr.randrange(len(bad))] ^= 1 << rr.randrange(8)
         # a request the daemon would otherwise answer INVALID_KE_PAYLOAD / NO_PROPOSAL_CHOSEN: without the right cookie it must not even look
